@@ -352,7 +352,10 @@ pub(crate) fn add_int_multinom<W, R, T>(
         XFuncSpec::new(&[&XSequenceType::xtype(X_INT.clone())], X_INT.clone()),
         XStaticFunction::from_native(|args, ns, _tca, rt| {
             let a0 = xraise!(eval(&args[0], ns, &rt)?);
-            let Some(s) = to_native!(a0, XSequence::<W, R, T>).diter(ns, rt.clone()) else { return xerr(ManagedXError::new("sequence is infinite", rt)?); };
+            let seq = to_native!(a0, XSequence::<W, R, T>);
+            let Some(s) = seq.diter(ns, rt.clone()) else { return xerr(ManagedXError::new("sequence is infinite", rt)?); };
+            // the whole sequence is collected (and sorted) before the search budget is consulted
+            rt.can_allocate(seq.len().unwrap_or(0).saturating_mul(size_of::<LazyBigint>()))?;
 
             let mut s = xraise!(s.map(|v|->XResult<LazyBigint, W, R, T>{
                 Ok(Ok(to_primitive!(forward_err!(v?), Int).clone()))
